@@ -103,7 +103,7 @@ theorem C17_refines_fire (sys : ActorSys σ η) (hu : UdpModel sys) (hr : NoRand
     obtain ⟨en, hen, hk⟩ := List.any_eq_true.1 hg.2.1
     simp only [Bool.and_eq_true, decide_eq_true_eq] at hk
     exact enabled_timeout sys hu rs hg.1 hs
-      (mem_armed.2 ⟨en.2, by rw [← hk.1]; exact hen, Nat.lt_of_le_of_lt hk.2 hinv.now⟩)
+      (mem_armed.2 ⟨en.2, by rw [← hk.1]; exact hen, Nat.lt_trans hk.2 hinv.now⟩)
   · cases h
 
 /-- **Every execution projects onto a path of the model**: from the model's initial state, through model
@@ -183,16 +183,16 @@ theorem C17_refines_random_fails :
     (UdpModel rndTwo ∧
       (mrun rndTwo (specInit rndTwo) [.selectRandom 0 0 5, .selectRandom 0 1 5]).isSome = true ∧
       ((rrun rndTwo (rinit rndTwo) [.start 0 []]).map (fun rs => (rs.ints 0).length)) = some 1 ∧
-      ((rrun rndTwo (rinit rndTwo) [.start 0 [], .fire 0 (.random 5) []]).map (fun rs => (rs.st 0, rs.ints 0)))
+      ((rrun rndTwo (rinit rndTwo) [.start 0 [], .tick 1, .fire 0 (.random 5) []]).map (fun rs => (rs.st 0, rs.ints 0)))
         = some (some 5, [])) := by
-  refine ⟨⟨⟨rfl, rfl⟩, ⟨[.start 0 [], .fire 0 (.random 5) []], ?_⟩, ?_⟩,
-    ⟨⟨rfl, rfl⟩, ⟨[.start 0 [], .fire 0 (.random 5) []], ?_⟩, ?_⟩, ⟨rfl, rfl⟩, by decide, by decide, by decide⟩
-  · exact ⟨(rrun rndEmpty (rinit rndEmpty) [.start 0 [], .fire 0 (.random 5) []]).get (by decide), by simp, by decide⟩
+  refine ⟨⟨⟨rfl, rfl⟩, ⟨[.start 0 [], .tick 1, .fire 0 (.random 5) []], ?_⟩, ?_⟩,
+    ⟨⟨rfl, rfl⟩, ⟨[.start 0 [], .tick 1, .fire 0 (.random 5) []], ?_⟩, ?_⟩, ⟨rfl, rfl⟩, by decide, by decide, by decide⟩
+  · exact ⟨(rrun rndEmpty (rinit rndEmpty) [.start 0 [], .tick 1, .fire 0 (.random 5) []]).get (by decide), by simp, by decide⟩
   · intro s hs
     have := reach_among (sys := rndEmpty) [specInit rndEmpty] (by decide) (by decide) hs
     simp only [List.mem_singleton] at this
     subst this; decide
-  · exact ⟨(rrun rndKey (rinit rndKey) [.start 0 [], .fire 0 (.random 5) []]).get (by decide), by simp, by decide⟩
+  · exact ⟨(rrun rndKey (rinit rndKey) [.start 0 [], .tick 1, .fire 0 (.random 5) []]).get (by decide), by simp, by decide⟩
   · intro s hs
     have := reach_among (sys := rndKey)
       [specInit rndKey, { specInit rndKey with actors := [6], random := [[]] }] (by decide) (by decide) hs
@@ -282,6 +282,10 @@ example : (rrun pingPong (rinit pingPong) ppRun).map (fun rs => (rs.flight, (abs
     = some ([⟨0, 1, 1⟩, ⟨0, 1, 1⟩], .dup [⟨0, 1, 1⟩] (some ⟨1, 0, 0⟩), [[7], []]) := by decide
 -- a timer cannot fire before its deadline, nor after a cancel without re-arming; an unstarted thread receives nothing
 example : (rrun pingPong (rinit pingPong) [.start 0 [0, 100], .tick 99, .fire 0 (.timeout 7) []]).isSome = false := by
+  decide
+-- nor AT its deadline (the code then takes the receive branch with a zero read timeout: `Loop.Ev.zeroWait`), only after
+example : (rrun pingPong (rinit pingPong) [.start 0 [0, 100], .tick 100, .fire 0 (.timeout 7) []]).isSome = false ∧
+    (rrun pingPong (rinit pingPong) [.start 0 [0, 100], .tick 101, .fire 0 (.timeout 7) []]).isSome = true := by
   decide
 example : (rrun pingPong (rinit pingPong) [.start 0 [0, 100], .deliver ⟨0, 1, 0⟩ true []]).isSome = false := by decide
 -- the theorems apply to it
